@@ -1,0 +1,15 @@
+//go:build verif
+
+package verifhook
+
+import (
+	"github.com/open2b/scriggo/internal/compiler"
+)
+
+var (
+	Rooted            = compiler.VerifRooted
+	ValidTemplatePath = compiler.ValidTemplatePath
+	ParseTemplate     = compiler.VerifParseTemplate
+	AsCycleError      = compiler.VerifCycleError
+	AsSyntaxError     = compiler.VerifSyntaxError
+)
